@@ -11,7 +11,7 @@ import nodecheck
 from nodecheck import Obs, kv, parse_msg, parse_cfg
 
 PROP = "C08"
-MODULES = ["DV.Properties.C08", "DV.Properties.C08Tables", "DV.Properties.C08Hist", "DV.Properties.C08One"]
+MODULES = ["DV.Properties.C08", "DV.Properties.C08Tables", "DV.Properties.C08Hist", "DV.Properties.C08One", "DV.Properties.C08Err"]
 KEEP = {"OUT": None, "APP": None, "CRASH": None}
 
 CFG = ("NODE host=node.local;realm=realm.local;peer:peer1.x,realm.local,0,0,30,1,0,-,-,-,-;"
